@@ -858,7 +858,11 @@ def run(tier, seed):
                        "esbuild (minification of prelude / .inc.js and its own source map) is not modelled",
                        "AsciiBeforeHints (bytes before a hint on its line are ASCII) is a hypothesis of columns_units, tested on every "
                        "emitted out.js by the prog tie",
-                       "original columns in Go mappings are go/token columns (1-based); the property only speaks about original lines"]
+                       "original columns in Go mappings are go/token columns (1-based); the property only speaks about original lines",
+                       "stack frames are resolved the way Node and Chrome do: last mapping at or before the position, also across "
+                       "generated lines (non-minified code spreads one Go statement over several lines); a mapping without source = unresolved",
+                       "non-minified builds: prelude / .inc.js text is re-printed by esbuild only when a map is written (filter.go:101-105), "
+                       "so out.js with and without map are compared outside that text (counted in program_stats); minified builds are compared whole"]
     import time
     t0 = time.time()
     phases = {}
